@@ -265,9 +265,19 @@ class Continuation(Contract):
         # still paused by someone else: result handed over, nothing runs yet
         return band(base, len(ran) == 0, ch.result is S.old.d.result)
 
-    ensures = dict(result_handed_over_and_chainee_resumed=_handover)
+    def _flag(S):
+        # the re-entrancy flag that makes addCallbacks() from inside a running callback append instead of re-entering
+        # _runCallbacks belongs to the Deferred whose callback is running -- here the resumed chainee, not the Deferred
+        # whose _runCallbacks frame it is (seeded change C01-3)
+        ran = [e for e in S.trace if e.name in ("cb1", "eb1")]
+        return band(S.new.d._runningCallbacks is False, S.new.chainee._runningCallbacks is False,
+                    *[band(e.snap.chainee._runningCallbacks is True, e.snap.d._runningCallbacks is False) for e in ran])
+
+    ensures = dict(result_handed_over_and_chainee_resumed=_handover, reentrancy_flag_is_set_on_the_deferred_whose_callback_runs=_flag)
     canaries = [("chainee.paused -= 1", "pass", "result_handed_over_and_chainee_resumed"),
-                ("current.result = None\n", "pass\n", "result_handed_over_and_chainee_resumed")]
+                ("current.result = None\n", "pass\n", "result_handed_over_and_chainee_resumed"),
+                ("                    current._runningCallbacks = True", "                    self._runningCallbacks = True",
+                 "reentrancy_flag_is_set_on_the_deferred_whose_callback_runs")]
 
 
 # -- bounded: programs vs reference interpreter ------------------------------------------------------
@@ -362,20 +372,20 @@ class Programs(Bounded):
     prop = "C01"
     title = "programs over several Deferreds: real class vs reference interpreter"
     scope = ("programs of <= 7 (thorough 9) operations over 3 Deferreds drawn from addCallback/addErrback/addBoth/"
-             "addCallbacks with behaviours {return value, raise, return failure, return Deferred d_j}, pause, unpause, "
+             "addCallbacks with behaviours {return value, raise, return failure, return Deferred d_j, add a callback to d_j from inside}, pause, unpause, "
              "callback, errback; exhaustive for <= 3 operations over 2 Deferreds, seeded random beyond "
              "(quick 4000, thorough 60000 programs)")
     functions = ["Deferred._runCallbacks", "Deferred.addCallbacks", "Deferred.addCallback", "Deferred.addErrback",
                  "Deferred.addBoth", "Deferred.pause", "Deferred.unpause", "Deferred.callback", "Deferred.errback",
                  "Deferred._continuation"]
 
-    BEH = ["val", "raise", "fail", "d0", "d1", "d2"]
+    BEH = ["val", "raise", "fail", "d0", "d1", "d2", "a0", "a1", "a2"]  # a<j>: adds a callback to d_j from inside, returns a value
 
     def ops(self, nd):
         out = []
         for t in range(nd):
             for b in self.BEH:
-                if b.startswith("d") and int(b[1]) >= nd:
+                if b[0] in "da" and int(b[1]) >= nd:
                     continue
                 out += [("cb", t, b), ("eb", t, b), ("both", t, b)]
             out += [("cbs", t, "val", "fail"), ("cbs", t, "d%d" % ((t + 1) % nd), "val"), ("pause", t), ("unpause", t),
@@ -389,6 +399,16 @@ class Programs(Bounded):
                 if n == 3 and sum(1 for o in prog if o[0] in ("fire", "fail")) == 0:
                     continue
                 yield (2, prog)
+        # directed: d0 waits on d1 (returned from its first callback), two more pairs on d0 with every behaviour
+        # (including registration from inside), both firing orders -- d0's callbacks then run from d1's frame
+        beh2 = [b for b in self.BEH if not (b[0] in "da" and int(b[1]) >= 2)]
+        for k2, b2, k3, b3 in itertools.product(("cb", "eb", "both"), beh2, ("cb", "eb", "both"), beh2):
+            for f0, f1 in itertools.product(("fire", "fail"), repeat=2):
+                mid = (("cb", 0, "d1"), (k2, 0, b2), (k3, 0, b3))
+                yield (2, mid + ((f0, 0), (f1, 1)))
+                if b2[0] == "a" or b3[0] == "a":
+                    yield (2, ((f1, 1),) + mid + ((f0, 0),))
+                    yield (2, (("cb", 1, "a0"),) + mid + ((f0, 0), (f1, 1)))
         ops3 = self.ops(3)
         count = 4000 if tier == "quick" else 60000
         top = 7 if tier == "quick" else 9
@@ -429,7 +449,18 @@ class Programs(Bounded):
                     raise RuntimeError("raised:%d" % ident)
                 if beh == "fail":
                     return Failure(RuntimeError("raised:f%d" % ident))
+                if beh[0] == "a":  # re-entrant registration from inside a running callback
+                    real[int(beh[1])].addBoth(inner_real)
+                    return "v%d" % ident
                 return real[int(beh[1])]
+
+            def inner_real(x):
+                log_real.append((1000 + ident, norm_real(x)))
+                return "w%d" % ident
+
+            def inner_ref(x):
+                log_ref.append((1000 + ident, norm_ref(x)))
+                return "w%d" % ident
 
             def mf(x):
                 log_ref.append((ident, norm_ref(x)))
@@ -439,6 +470,9 @@ class Programs(Bounded):
                     raise RefRaise("%d" % ident)
                 if beh == "fail":
                     return RefFail("raised:f%d" % ident)
+                if beh[0] == "a":
+                    ref[int(beh[1])].add((inner_ref, inner_ref))
+                    return "v%d" % ident
                 return ref[int(beh[1])]
             return rf, mf
 
